@@ -3,47 +3,75 @@
 (* flow.ThrottlingChecker.DoCheck at the grain of its atomic accesses      *)
 (* (property C10).  Labels = yield points of the real code:                *)
 (*   th.load1  th.cas  (pinned code also: th.load2  th.add  th.sub)  "start" *)
-(* NC callers issue one request each (spacing Iv[c] ticks = ceil(batch *   *)
-(* statInterval / threshold)), a clock ticks.  `last' is lastPassedTime.   *)
+(* NC callers issue one request each, a clock ticks.  `last' is            *)
+(* lastPassedTime.  Every request carries its OWN batch Bt[c] and its OWN  *)
+(* threshold Th[c] = <<n, d>> (the threshold is an argument of each check: *)
+(* MemoryAdaptive / WarmUp rules hand a different one from call to call),  *)
+(* the spacing it owes is IvOwn(c) = ceil(Bt[c] * SI / Th[c]) ticks.       *)
 (***************************************************************************)
 EXTENDS ThrottleProp, Sequences, TLC
 
-CONSTANTS NC, Iv, MaxQ, MaxT,
+CONSTANTS NC,
+          Bt,         \* Bt[c]: batch count of caller c's request (0 = passes without pacing)
+          Th,         \* Th[c] = <<n, d>>: threshold n/d in force for caller c's request
+          SI,         \* statistic interval in ticks
+          MaxQ, MaxT,
           Last0,      \* initial lastPassedTime (0 = never passed)
-          CasLoop     \* TRUE: every update of lastPassedTime is a compare-and-swap from the value the decision was
+          CasLoop,    \* TRUE: every update of lastPassedTime is a compare-and-swap from the value the decision was
                       \* based on, retried on loss (code after "fix: update lastPassedTime by compare-and-swap only");
                       \* FALSE: pinned code (idle branch CAS falling through to load / add / roll-back by subtraction),
                       \* kept as a spec-level mutant whose counterexamples are replayed on the real code
+          PerCall     \* TRUE: the spacing is computed from the threshold of the request being checked;
+                      \* FALSE: spec-level mutant - the per-token interval SI / threshold is derived once, from the first
+                      \* request that reaches the pacing decision, and reused for every later request of the checker
 Callers == 1..NC
+IvOwn(c)  == Owed(Bt[c], Th[c][1], Th[c][2], SI)
+BigC(c)   == Th[c][1] <= 0 \/ Bt[c] * Th[c][2] > Th[c][1]
+\* the request that stands for an initial lastPassedTime > 0 (batch 1 at threshold SI: spacing 1)
+Setup     == [id |-> 0, arr |-> Last0, b |-> 1, tn |-> SI, td |-> 1, res |-> "pass", w |-> 0, inv |-> 0, ret |-> 0]
 
 (* --algorithm Throttle {
 variables last = IF Last0 > 0 THEN Last0 ELSE -1000,    \* 0 = never passed: the epoch is far in the past
           now = 1, seq = 0,
           \* an initial lastPassedTime > 0 stands for an earlier request that passed at that instant
-          reqs = IF Last0 > 0 THEN {[id |-> 0, arr |-> Last0, iv |-> 1, res |-> "pass", w |-> 0, inv |-> 0, ret |-> 0, big |-> FALSE]} ELSE {},
+          reqs = IF Last0 > 0 THEN {Setup} ELSE {},
+          frozen = <<0, 1>>,      \* mutant PerCall = FALSE only: threshold of the first paced request
           sched = << >>;
 
 define {
-    SpacingInv     == Spacing(reqs)
+    SpacingInv     == Spacing(reqs, SI)
     BoundedWaitInv == BoundedWait(reqs, MaxQ)
-    NoSpuriousInv  == NoSpuriousReject(reqs, MaxQ, 0)
+    NoSpuriousInv  == NoSpuriousReject(reqs, SI, MaxQ, 0)
+    \* the spacing the checker applies to caller c's request
+    IvOf(c)        == IF PerCall THEN IvOwn(c) ELSE Owed(Bt[c], frozen[1], frozen[2], SI)
+    Rec(c, arrival, result, wait, i, r) ==
+        [id |-> c, arr |-> arrival, b |-> Bt[c], tn |-> Th[c][1], td |-> Th[c][2], res |-> result, w |-> wait, inv |-> i, ret |-> r]
 }
 macro Note() { sched := Append(sched, self); }
 macro Finish(result, wait) {
     seq := seq + 1;
-    reqs := reqs \cup {[id |-> self, arr |-> cur, iv |-> Iv[self], res |-> result, w |-> wait, inv |-> inv, ret |-> seq + 1, big |-> FALSE]};
+    reqs := reqs \cup {Rec(self, cur, result, wait, inv, seq + 1)};
 }
 
 process (c \in Callers)
 variables cur = 0, inv = 0, loaded = 0, est = 0;
 {
-  t_start:  \* start: DoCheck is invoked, reads the clock
-    cur := now; seq := seq + 1; inv := seq + 1; Note();
+  t_start:  \* start: DoCheck is invoked; batch 0 passes, threshold <= 0 or batch > threshold rejects (both without
+            \* touching the pacing state and before the first yield point); otherwise it reads the clock
+    cur := now; Note();
+    if (Bt[self] = 0 \/ BigC(self)) {
+        seq := seq + 2;
+        reqs := reqs \cup {Rec(self, now, IF Bt[self] = 0 THEN "pass" ELSE "reject", 0, seq, seq + 1)};
+        goto Done;
+    } else {
+        seq := seq + 1; inv := seq + 1;
+        if (~PerCall /\ frozen[1] = 0) { frozen := Th[self]; };
+    };
   t_load1:  \* th.load1
     loaded := last; Note();
-    if (loaded + Iv[self] > cur) {
+    if (loaded + IvOf(self) > cur) {
         if (CasLoop) {
-            est := loaded + Iv[self] - cur;
+            est := loaded + IvOf(self) - cur;
             if (est > MaxQ) { Finish("reject", 0); goto Done; } else { goto t_casq; };
         } else { goto t_load2; };
     };
@@ -54,15 +82,15 @@ variables cur = 0, inv = 0, loaded = 0, est = 0;
     else { goto t_load2; };
   t_casq:   \* th.cas (queueing branch of the fixed code: reserve the slot loaded + interval)
     Note();
-    if (last = loaded) { last := loaded + Iv[self]; Finish("pass", est); goto Done; } else { goto t_load1; };
+    if (last = loaded) { last := loaded + IvOf(self); Finish("pass", est); goto Done; } else { goto t_load1; };
   t_load2:  \* th.load2 (pinned code)
-    est := last + Iv[self] - cur; Note();
+    est := last + IvOf(self) - cur; Note();
     if (est > MaxQ) { Finish("reject", 0); goto Done; };
   t_add:    \* th.add (pinned code)
-    last := last + Iv[self]; est := last - cur; Note();   \* (reads of `last' after the assignment see the new value)
+    last := last + IvOf(self); est := last - cur; Note();   \* (reads of `last' after the assignment see the new value)
     if (est <= MaxQ) { Finish("pass", IF est > 0 THEN est ELSE 0); goto Done; };
   t_sub:    \* th.sub (pinned code)
-    last := last - Iv[self]; Note(); Finish("reject", 0);
+    last := last - IvOf(self); Note(); Finish("reject", 0);
 }
 
 process (clock = 0)
@@ -70,17 +98,21 @@ process (clock = 0)
   tick: while (now < MaxT) { now := now + 1; sched := Append(sched, 0); }
 }
 } *)
-\* BEGIN TRANSLATION (chksum(pcal) = "8c964e94" /\ chksum(tla) = "c6229a61")
-VARIABLES pc, last, now, seq, reqs, sched
+\* BEGIN TRANSLATION
+VARIABLES pc, last, now, seq, reqs, frozen, sched
 
 (* define statement *)
-SpacingInv     == Spacing(reqs)
+SpacingInv     == Spacing(reqs, SI)
 BoundedWaitInv == BoundedWait(reqs, MaxQ)
-NoSpuriousInv  == NoSpuriousReject(reqs, MaxQ, 0)
+NoSpuriousInv  == NoSpuriousReject(reqs, SI, MaxQ, 0)
+
+IvOf(c)        == IF PerCall THEN IvOwn(c) ELSE Owed(Bt[c], frozen[1], frozen[2], SI)
+Rec(c, arrival, result, wait, i, r) ==
+    [id |-> c, arr |-> arrival, b |-> Bt[c], tn |-> Th[c][1], td |-> Th[c][2], res |-> result, w |-> wait, inv |-> i, ret |-> r]
 
 VARIABLES cur, inv, loaded, est
 
-vars == << pc, last, now, seq, reqs, sched, cur, inv, loaded, est >>
+vars == << pc, last, now, seq, reqs, frozen, sched, cur, inv, loaded, est >>
 
 ProcSet == (Callers) \cup {0}
 
@@ -88,7 +120,8 @@ Init == (* Global variables *)
         /\ last = (IF Last0 > 0 THEN Last0 ELSE -1000)
         /\ now = 1
         /\ seq = 0
-        /\ reqs = (IF Last0 > 0 THEN {[id |-> 0, arr |-> Last0, iv |-> 1, res |-> "pass", w |-> 0, inv |-> 0, ret |-> 0, big |-> FALSE]} ELSE {})
+        /\ reqs = (IF Last0 > 0 THEN {Setup} ELSE {})
+        /\ frozen = <<0, 1>>
         /\ sched = << >>
         (* Process c *)
         /\ cur = [self \in Callers |-> 0]
@@ -100,21 +133,31 @@ Init == (* Global variables *)
 
 t_start(self) == /\ pc[self] = "t_start"
                  /\ cur' = [cur EXCEPT ![self] = now]
-                 /\ seq' = seq + 1
-                 /\ inv' = [inv EXCEPT ![self] = seq' + 1]
                  /\ sched' = Append(sched, self)
-                 /\ pc' = [pc EXCEPT ![self] = "t_load1"]
-                 /\ UNCHANGED << last, now, reqs, loaded, est >>
+                 /\ IF Bt[self] = 0 \/ BigC(self)
+                       THEN /\ seq' = seq + 2
+                            /\ reqs' = (reqs \cup {Rec(self, now, IF Bt[self] = 0 THEN "pass" ELSE "reject", 0, seq', seq' + 1)})
+                            /\ pc' = [pc EXCEPT ![self] = "Done"]
+                            /\ UNCHANGED << frozen, inv >>
+                       ELSE /\ seq' = seq + 1
+                            /\ inv' = [inv EXCEPT ![self] = seq' + 1]
+                            /\ IF ~PerCall /\ frozen[1] = 0
+                                  THEN /\ frozen' = Th[self]
+                                  ELSE /\ TRUE
+                                       /\ UNCHANGED frozen
+                            /\ pc' = [pc EXCEPT ![self] = "t_load1"]
+                            /\ reqs' = reqs
+                 /\ UNCHANGED << last, now, loaded, est >>
 
 t_load1(self) == /\ pc[self] = "t_load1"
                  /\ loaded' = [loaded EXCEPT ![self] = last]
                  /\ sched' = Append(sched, self)
-                 /\ IF loaded'[self] + Iv[self] > cur[self]
+                 /\ IF loaded'[self] + IvOf(self) > cur[self]
                        THEN /\ IF CasLoop
-                                  THEN /\ est' = [est EXCEPT ![self] = loaded'[self] + Iv[self] - cur[self]]
+                                  THEN /\ est' = [est EXCEPT ![self] = loaded'[self] + IvOf(self) - cur[self]]
                                        /\ IF est'[self] > MaxQ
                                              THEN /\ seq' = seq + 1
-                                                  /\ reqs' = (reqs \cup {[id |-> self, arr |-> cur[self], iv |-> Iv[self], res |-> "reject", w |-> 0, inv |-> inv[self], ret |-> seq' + 1, big |-> FALSE]})
+                                                  /\ reqs' = (reqs \cup {Rec(self, cur[self], "reject", 0, inv[self], seq' + 1)})
                                                   /\ pc' = [pc EXCEPT ![self] = "Done"]
                                              ELSE /\ pc' = [pc EXCEPT ![self] = "t_casq"]
                                                   /\ UNCHANGED << seq, reqs >>
@@ -122,62 +165,62 @@ t_load1(self) == /\ pc[self] = "t_load1"
                                        /\ UNCHANGED << seq, reqs, est >>
                        ELSE /\ pc' = [pc EXCEPT ![self] = "t_cas"]
                             /\ UNCHANGED << seq, reqs, est >>
-                 /\ UNCHANGED << last, now, cur, inv >>
+                 /\ UNCHANGED << last, now, frozen, cur, inv >>
 
 t_cas(self) == /\ pc[self] = "t_cas"
                /\ sched' = Append(sched, self)
                /\ IF last = loaded[self]
                      THEN /\ last' = cur[self]
                           /\ seq' = seq + 1
-                          /\ reqs' = (reqs \cup {[id |-> self, arr |-> cur[self], iv |-> Iv[self], res |-> "pass", w |-> 0, inv |-> inv[self], ret |-> seq' + 1, big |-> FALSE]})
+                          /\ reqs' = (reqs \cup {Rec(self, cur[self], "pass", 0, inv[self], seq' + 1)})
                           /\ pc' = [pc EXCEPT ![self] = "Done"]
                      ELSE /\ IF CasLoop
                                 THEN /\ pc' = [pc EXCEPT ![self] = "t_load1"]
                                 ELSE /\ pc' = [pc EXCEPT ![self] = "t_load2"]
                           /\ UNCHANGED << last, seq, reqs >>
-               /\ UNCHANGED << now, cur, inv, loaded, est >>
+               /\ UNCHANGED << now, frozen, cur, inv, loaded, est >>
 
 t_casq(self) == /\ pc[self] = "t_casq"
                 /\ sched' = Append(sched, self)
                 /\ IF last = loaded[self]
-                      THEN /\ last' = loaded[self] + Iv[self]
+                      THEN /\ last' = loaded[self] + IvOf(self)
                            /\ seq' = seq + 1
-                           /\ reqs' = (reqs \cup {[id |-> self, arr |-> cur[self], iv |-> Iv[self], res |-> "pass", w |-> est[self], inv |-> inv[self], ret |-> seq' + 1, big |-> FALSE]})
+                           /\ reqs' = (reqs \cup {Rec(self, cur[self], "pass", est[self], inv[self], seq' + 1)})
                            /\ pc' = [pc EXCEPT ![self] = "Done"]
                       ELSE /\ pc' = [pc EXCEPT ![self] = "t_load1"]
                            /\ UNCHANGED << last, seq, reqs >>
-                /\ UNCHANGED << now, cur, inv, loaded, est >>
+                /\ UNCHANGED << now, frozen, cur, inv, loaded, est >>
 
 t_load2(self) == /\ pc[self] = "t_load2"
-                 /\ est' = [est EXCEPT ![self] = last + Iv[self] - cur[self]]
+                 /\ est' = [est EXCEPT ![self] = last + IvOf(self) - cur[self]]
                  /\ sched' = Append(sched, self)
                  /\ IF est'[self] > MaxQ
                        THEN /\ seq' = seq + 1
-                            /\ reqs' = (reqs \cup {[id |-> self, arr |-> cur[self], iv |-> Iv[self], res |-> "reject", w |-> 0, inv |-> inv[self], ret |-> seq' + 1, big |-> FALSE]})
+                            /\ reqs' = (reqs \cup {Rec(self, cur[self], "reject", 0, inv[self], seq' + 1)})
                             /\ pc' = [pc EXCEPT ![self] = "Done"]
                        ELSE /\ pc' = [pc EXCEPT ![self] = "t_add"]
                             /\ UNCHANGED << seq, reqs >>
-                 /\ UNCHANGED << last, now, cur, inv, loaded >>
+                 /\ UNCHANGED << last, now, frozen, cur, inv, loaded >>
 
 t_add(self) == /\ pc[self] = "t_add"
-               /\ last' = last + Iv[self]
+               /\ last' = last + IvOf(self)
                /\ est' = [est EXCEPT ![self] = last' - cur[self]]
                /\ sched' = Append(sched, self)
                /\ IF est'[self] <= MaxQ
                      THEN /\ seq' = seq + 1
-                          /\ reqs' = (reqs \cup {[id |-> self, arr |-> cur[self], iv |-> Iv[self], res |-> "pass", w |-> (IF est'[self] > 0 THEN est'[self] ELSE 0), inv |-> inv[self], ret |-> seq' + 1, big |-> FALSE]})
+                          /\ reqs' = (reqs \cup {Rec(self, cur[self], "pass", (IF est'[self] > 0 THEN est'[self] ELSE 0), inv[self], seq' + 1)})
                           /\ pc' = [pc EXCEPT ![self] = "Done"]
                      ELSE /\ pc' = [pc EXCEPT ![self] = "t_sub"]
                           /\ UNCHANGED << seq, reqs >>
-               /\ UNCHANGED << now, cur, inv, loaded >>
+               /\ UNCHANGED << now, frozen, cur, inv, loaded >>
 
 t_sub(self) == /\ pc[self] = "t_sub"
-               /\ last' = last - Iv[self]
+               /\ last' = last - IvOf(self)
                /\ sched' = Append(sched, self)
                /\ seq' = seq + 1
-               /\ reqs' = (reqs \cup {[id |-> self, arr |-> cur[self], iv |-> Iv[self], res |-> "reject", w |-> 0, inv |-> inv[self], ret |-> seq' + 1, big |-> FALSE]})
+               /\ reqs' = (reqs \cup {Rec(self, cur[self], "reject", 0, inv[self], seq' + 1)})
                /\ pc' = [pc EXCEPT ![self] = "Done"]
-               /\ UNCHANGED << now, cur, inv, loaded, est >>
+               /\ UNCHANGED << now, frozen, cur, inv, loaded, est >>
 
 c(self) == t_start(self) \/ t_load1(self) \/ t_cas(self) \/ t_casq(self)
               \/ t_load2(self) \/ t_add(self) \/ t_sub(self)
@@ -189,7 +232,7 @@ tick == /\ pc[0] = "tick"
                    /\ pc' = [pc EXCEPT ![0] = "tick"]
               ELSE /\ pc' = [pc EXCEPT ![0] = "Done"]
                    /\ UNCHANGED << now, sched >>
-        /\ UNCHANGED << last, seq, reqs, cur, inv, loaded, est >>
+        /\ UNCHANGED << last, seq, reqs, frozen, cur, inv, loaded, est >>
 
 clock == tick
 
@@ -205,10 +248,5 @@ Spec == Init /\ [][Next]_vars
 
 Termination == <>(\A self \in ProcSet: pc[self] = "Done")
 
-\* END TRANSLATION 
- 
- 
- 
- 
- 
+\* END TRANSLATION
 =============================================================================
